@@ -268,6 +268,9 @@ func lifeOps(withAlign, withSkip bool) []lifeOp {
 	return ops
 }
 
+// lifePanickingRender: checks whose wrapper is a text table (the only renderer with a documented panic)
+var lifePanickingRender = map[string]bool{"C03": true, "C04": true}
+
 // lifeWideStart: checks whose lifecycle family also starts from a table with a header-less third column.
 var lifeWideStart = map[string]bool{"C03": true, "C04": true, "C05": true, "C08": true, "C09": true}
 
@@ -300,11 +303,33 @@ func lifecycle(x *X, c *Chooser, prop string, depth int, ops []lifeOp, overrides
 				enabled = append(enabled, o)
 			}
 		}
-		k := c.Choose(len(enabled) + 3)
+		extra := 0
+		if lifePanickingRender[prop] {
+			extra = 1
+		}
+		k := c.Choose(len(enabled) + 3 + extra)
 		if k == 0 {
 			break
 		}
 		x.Transition(1)
+		if extra == 1 && k == len(enabled)+3 {
+			// a render that PANICS half-way (the text renderer's documented panic for an alignment value it does not know),
+			// recovered by the caller, who then repairs the setting: nothing of the aborted render may survive on the wrapper
+			if w == nil {
+				w = mk(m.t)
+			}
+			c.Logf("Column(1) alignment = an invalid value; wrapper.Render() under recover (panics by design); alignment restored")
+			m.t.Column(1).SetProperty(align.PropertyType, align.TestingInvalidAlignment())
+			Safe(func() { w.Render() })
+			var restore interface{}
+			if len(m.aligns) > 1 {
+				restore = m.aligns[1]
+			}
+			m.t.Column(1).SetProperty(align.PropertyType, restore)
+			m.ops = append(m.ops, "render-that-panicked")
+			changedSince = true
+			continue
+		}
 		switch {
 		case k == 1 || k == 2:
 			if w == nil {
